@@ -21,6 +21,7 @@ type G struct {
 	started  bool
 	crashed  *goPanic
 	watchdog bool
+	inQuiesce bool
 	killed   bool
 	fn       Value
 	args     []Value
@@ -242,26 +243,19 @@ func (p *Path) block(why string, cond func() bool) {
 // Yield lets every other runnable goroutine run until they all block.
 func (p *Path) Quiesce() {
 	g := p.sched.cur
-	for {
-		other := false
+	othersRunnable := func() bool {
 		for _, o := range p.sched.gs {
 			if o != g && !o.done && (o.wait == nil || o.wait()) {
-				other = true
-				break
+				return true
 			}
 		}
-		if !other {
-			return
-		}
-		// make ourselves non-preferred: wait until no other is runnable
-		g.wait = func() bool {
-			for _, o := range p.sched.gs {
-				if o != g && !o.done && (o.wait == nil || o.wait()) {
-					return false
-				}
-			}
-			return true
-		}
+		return false
+	}
+	g.inQuiesce = true
+	defer func() { g.inQuiesce = false }()
+	for othersRunnable() {
+		// make ourselves non-preferred: wait until no other goroutine is runnable
+		g.wait = func() bool { return !othersRunnable() }
 		g.waitWhy = "quiesce"
 		p.yield()
 		g.wait = nil
